@@ -196,6 +196,88 @@ class Body:
                 stack.append(key)
         return seen_blocks
 
+    def facts_at(self, target, max_states=6000):
+        """Comparisons known to hold (or to fail) whenever block `target` is reached, path-sensitively: {(bb, stmt index): truth} of the
+        comparison statements `l = a <op> b` whose outcome is fixed on EVERY path from the entry to `target`. Booleans are tracked through
+        copies, `!`, literal assignments and the lazy `&&` / `||` shapes (a flag local assigned a literal on one arm and a comparison on
+        the other), so `let ok = a == b && c == d; if !ok { .. } else { HERE }` yields both comparisons as true at HERE. Returns None when
+        the search is cut off."""
+        CMP = ("Eq", "Ne", "Lt", "Le", "Gt", "Ge")
+        init = (0, frozenset(), frozenset())
+        stack = [init]
+        seen = {init}
+        result = None
+        while stack:
+            b, envf, facts = stack.pop()
+            env = dict(envf)
+            if b == target:
+                f = dict(facts)
+                result = f if result is None else {k: v for k, v in result.items() if f.get(k) == v}
+                continue
+            blk = self.blocks[b]
+            for si, s_ in enumerate(blk["stmts"]):
+                if s_["k"] != "Assign" or s_["lhs"]["p"]:
+                    continue
+                rv = s_["rv"]
+                val = None
+                if rv["k"] == "Use":
+                    k_ = rv["a"].get("k")
+                    if k_ is not None and k_.get("ty") == "bool" and isinstance(k_.get("v"), int):
+                        val = ("const", int(k_["v"]))
+                    else:
+                        pl = rv["a"].get("c") or rv["a"].get("m")
+                        if pl is not None and not pl["p"] and pl["l"] in env:
+                            val = env[pl["l"]]
+                elif rv["k"] == "BinaryOp" and rv["op"] in CMP:
+                    val = ("cmp", (b, si), True)
+                elif rv["k"] == "UnaryOp" and rv.get("op") == "Not":
+                    pl = rv["a"].get("c") or rv["a"].get("m")
+                    if pl is not None and not pl["p"] and pl["l"] in env:
+                        v0 = env[pl["l"]]
+                        val = ("const", 1 - v0[1]) if v0[0] == "const" else ("cmp", v0[1], not v0[2])
+                if val is None:
+                    env.pop(s_["lhs"]["l"], None)
+                else:
+                    env[s_["lhs"]["l"]] = val
+            t = blk["term"]
+            if t["k"] == "Call" and t.get("dest") is not None and not t["dest"]["p"]:
+                env.pop(t["dest"]["l"], None)
+            edges = self.term_edges(b, False)
+            nxt = []
+            if t["k"] == "SwitchInt" and t["dty"] == "bool":
+                pl = t["discr"].get("c") or t["discr"].get("m")
+                v0 = env.get(pl["l"]) if (pl is not None and not pl["p"]) else None
+                for tb, lab in edges:
+                    truth = not (lab[0] == "switch" and lab[1] == 0)
+                    if v0 is not None and v0[0] == "const":
+                        if bool(v0[1]) != truth:
+                            continue
+                        nxt.append((tb, facts))
+                    elif v0 is not None and v0[0] == "cmp":
+                        nxt.append((tb, facts | {(v0[1], truth == v0[2])}))
+                    else:
+                        nxt.append((tb, facts))
+            else:
+                nxt = [(tb, facts) for tb, _lab in edges]
+            envf2 = frozenset(env.items())
+            for tb, f2 in nxt:
+                # contradictory facts cannot both hold: such a path is infeasible
+                fd = {}
+                bad = False
+                for k_, v_ in f2:
+                    if fd.setdefault(k_, v_) != v_:
+                        bad = True
+                if bad:
+                    continue
+                st = (tb, envf2, f2)
+                if st in seen:
+                    continue
+                if len(seen) > max_states:
+                    return None
+                seen.add(st)
+                stack.append(st)
+        return result or {}
+
     def reachable_from_succs(self, bb, **kw):
         """Blocks reachable by leaving bb (bb itself only if on a cycle)."""
         res = set()
